@@ -94,6 +94,7 @@ def get_repo():
     n_loops = canon.desugar_loops(data0)
     canon.desugar_entry(data0)
     canon.desugar_filter_loops(data0)
+    canon.unroll_literal_loops(data0)
     canon.desugar_match_letelse(data0)
     canon.merge_bool_arms(data0)
     canon.expand_self(data0)
